@@ -1,7 +1,7 @@
 ---------------------------- MODULE MC_Replicas ----------------------------
 EXTENDS Replicas, Json
 CONSTANT ExportOn
-view == <<chain, obs, hist>>
+view == <<net, chain, obs, hist>>
 RSeq == CHOOSE s \in [1..Cardinality(Replica) -> Replica] : \A i, j \in 1..Cardinality(Replica) : i # j => s[i] # s[j]
 \* every complete schedule of history shapes is exported
 Export == IF ExportOn /\ Len(hist') = MaxHeight
